@@ -176,7 +176,13 @@ func (s *SuffrageStateBuilder) buildBatch(
 		return nil, e.Wrap(err)
 	}
 
-	return append(all, proofs...), nil
+	all = append(all, proofs...)
+
+	if !all[len(all)-1].State().Hash().Equal(last.Hash()) {
+		return nil, e.Errorf("last suffrage proof does not match with the proof by height, %d", lastheight)
+	}
+
+	return all, nil
 }
 
 func (*SuffrageStateBuilder) prove(
